@@ -59,3 +59,39 @@ def c01_reinit(inp, obligation):
         if bad:
             break
     return bool(bad), {"dim": d, "lmax": lmax, "lmin": lmin, "histories_tried": tried, "violations": bad[:3]}
+
+
+@handler("C01.scheme_query")
+def c01_scheme_query(inp, obligation):
+    """adaptive getCombiScheme on real objects after short refinement histories: the returned scheme is the inclusion-exclusion scheme of exactly old | active
+    (recomputed here from the definition), whatever lmin / lmax arguments are passed, and the query changes nothing"""
+    import itertools
+    import random
+    from sparseSpACE.combiScheme import CombiScheme
+    rng = random.Random(3)
+    bad = []
+
+    def reference(index_set, lmin, d):
+        coeff = {}
+        for g in index_set:
+            for s in itertools.product(*[([0] if g[i] <= lmin else [0, -1]) for i in range(d)]):
+                k = tuple(a + b for a, b in zip(g, s))
+                coeff[k] = coeff.get(k, 0) + (-1) ** sum(1 for x in s if x == -1)
+        return sorted((k, c) for k, c in coeff.items() if c != 0)
+    for d, lmin, lmax in ((2, 1, 3), (3, 1, 2), (2, 2, 3), (3, 1, 3), (1, 1, 3)):
+        c = CombiScheme(d)
+        c.init_adaptive_combi_scheme(lmax, lmin)
+        for step in range(4):
+            if c.active_index_set and step:
+                c.update_adaptive_combi(list(rng.choice(sorted(c.active_index_set))))
+            state = (set(c.old_index_set), set(c.active_index_set), c.lmin, c.lmax_adaptive)
+            want = reference(c.old_index_set | c.active_index_set, lmin, d)
+            for args in ((), (lmin + 1, lmax + 2), (0, 1)):
+                got = sorted((tuple(int(x) for x in g.levelvector), g.coefficient) for g in c.getCombiScheme(*args, do_print=False))
+                if got != want:
+                    bad.append("d=%d lmin=%d after %d refinements, getCombiScheme%r: %s, inclusion-exclusion scheme of the index set: %s" % (d, lmin, step, args, got[:6], want[:6]))
+                if (set(c.old_index_set), set(c.active_index_set), c.lmin, c.lmax_adaptive) != state:
+                    bad.append("d=%d: the query changed the state of the scheme object" % d)
+            if bad:
+                return True, {"violations": bad[:3]}
+    return False, {"violations": []}
